@@ -92,6 +92,9 @@ func (v *fnVC) memOrEntry(m string) T {
 func (v *fnVC) havocAll(why string) {
 	v.notes = append(v.notes, "havoc-all: "+why)
 	for m := range v.memSrt {
+		if m == allocMem || m == deferMem || m == visMem || strings.HasPrefix(m, "L_") {
+			continue // ghost state and non-escaping locals are out of a callee's reach (the allocation set only grows)
+		}
 		c := v.newConst(m, fmt.Sprintf("(Array Int %s)", v.memSrt[m]))
 		v.cur[m] = c
 	}
@@ -162,6 +165,9 @@ func (v *fnVC) runDefers(r *ssa.RunDefers) {
 		if k < 0 {
 			continue // site not yet executed on any path reaching here
 		}
+		if d.Block() != v.blk && !v.anc[v.blk][d.Block()] {
+			continue // the defer statement is not on any path to this return
+		}
 		cur, ok := v.cur[deferMem]
 		if !ok {
 			cur = v.mem0(deferMem)
@@ -230,6 +236,7 @@ func (v *fnVC) applyCall(c *ssa.CallCommon, x *ssa.Call, pos token.Pos, cond T) 
 			return
 		}
 		// not armed: state unchanged
+		v.reach[v.blk] = saveReach
 		for m, t := range v.cur {
 			old, ok := before[m]
 			if !ok {
@@ -418,10 +425,11 @@ func (v *fnVC) applyModifies(con *Contract, env *Env) {
 				panic(err)
 			}
 			t, _ := v.tr(e, env)
-			v.P.add("inTree", "(declare-fun inTree (Int Int) Bool)")
+			v.P.add("inTree", inTreeDecl)
 			var ks []string
 			for k := range v.memSrt {
-				if k != allocMem && k != deferMem {
+				// ghost state (allocation set, armed defers, visited keys) and non-escaping locals are not heap objects
+				if k != allocMem && k != deferMem && k != visMem && !strings.HasPrefix(k, "L_") {
 					ks = append(ks, k)
 				}
 			}
@@ -508,8 +516,7 @@ func (v *fnVC) builtin(x *ssa.Call, b *ssa.Builtin) {
 		case *types.Array:
 			v.define(x, intLit(u.Len()))
 		case *types.Map:
-			v.P.add("card", "(declare-fun card (Int) Int)\n(assert (forall ((m Int)) (! (>= (card m) 0) :pattern ((card m)))))")
-			v.define(x, app("card", a))
+			v.define(x, v.mapLen(a, u, nil))
 		default:
 			v.havoc(x)
 		}
@@ -810,6 +817,7 @@ func (v *fnVC) loopHead(li *loopInfo, preds []*ssa.BasicBlock, conds []T) {
 		v.oblige(fmt.Sprintf("inv.entry.loop%d.%d", li.ordinal, i+1), inv.Text, t, li.pos)
 	}
 	// 2. havoc modified state
+	preMem := copyMap(v.cur)
 	mod := map[string]bool{}
 	all := false
 	for blk := range li.body {
@@ -874,6 +882,7 @@ func (v *fnVC) loopHead(li *loopInfo, preds []*ssa.BasicBlock, conds []T) {
 			v.cur[k] = v.newConst(k, fmt.Sprintf("(Array Int %s)", v.memSrt[k]))
 		}
 		v.loopFrame(ks)
+		v.stableCells(li, preMem)
 	}
 	v.allocGrow()
 	for _, phi := range phis {
@@ -933,7 +942,7 @@ func (v *fnVC) modSortsOfContract(con *Contract, x *ssa.Call, mod map[string]boo
 		}
 		if strings.HasPrefix(m, "tree(") {
 			for k := range v.memSrt {
-				if k != allocMem && k != deferMem && !strings.HasPrefix(k, "L_") {
+				if k != allocMem && k != deferMem && k != visMem && !strings.HasPrefix(k, "L_") {
 					mod[k] = true
 				}
 			}
@@ -986,4 +995,91 @@ func (v *fnVC) dynFn(i int, argSorts []string, resSort string) string {
 	name := fmt.Sprintf("dyn%d_%s__%s", i, sanitize(strings.Join(argSorts[1:], "_")), sanitize(resSort))
 	v.P.add(name, fmt.Sprintf("(declare-fun %s (%s) %s)", name, strings.Join(argSorts, " "), resSort))
 	return name
+}
+
+// stableCells: the cell of a source variable that the loop body neither stores to, passes to a call,
+// nor binds in a closure created inside the loop keeps the value it had before the loop (callee frames
+// are explicit locations, maps, backing arrays or configuration trees, none of which can be such a cell).
+func (v *fnVC) stableCells(li *loopInfo, pre map[string]T) {
+	rootOf := func(a ssa.Value) ssa.Value {
+		for {
+			switch x := a.(type) {
+			case *ssa.FieldAddr:
+				a = x.X
+			case *ssa.IndexAddr:
+				a = x.X
+			default:
+				return a
+			}
+		}
+	}
+	touched := map[ssa.Value]bool{}
+	for blk := range li.body {
+		for _, in := range blk.Instrs {
+			switch x := in.(type) {
+			case *ssa.Store:
+				touched[rootOf(x.Addr)] = true
+				touched[rootOf(x.Val)] = true
+			case *ssa.Call:
+				for _, a := range x.Call.Args {
+					touched[rootOf(a)] = true
+				}
+				touched[rootOf(x.Call.Value)] = true
+			case *ssa.Defer:
+				for _, a := range x.Call.Args {
+					touched[rootOf(a)] = true
+				}
+			case *ssa.MakeClosure:
+				for _, b := range x.Bindings {
+					touched[rootOf(b)] = true
+				}
+			case *ssa.MakeInterface:
+				touched[rootOf(x.X)] = true
+			case *ssa.Phi:
+				for _, ed := range x.Edges {
+					touched[rootOf(ed)] = true
+				}
+			}
+		}
+	}
+	for _, ar := range v.allocs {
+		if ar.alloc == nil || touched[ar.alloc] || li.body[ar.blk] || v.localOnly[ar.alloc] {
+			continue
+		}
+		elem := ar.alloc.Type().Underlying().(*types.Pointer).Elem()
+		for _, lp := range v.leafPaths(elem) {
+			cur, ok := v.cur[lp.mem]
+			old, ok2 := pre[lp.mem]
+			if !ok {
+				continue
+			}
+			if !ok2 {
+				old = v.mem0(lp.mem)
+			}
+			if cur == old {
+				continue
+			}
+			addr := lp.wrap(ar.t)
+			v.assume(eq(sel(cur, addr), sel(old, addr)))
+		}
+	}
+}
+
+// mapLen: len(m) is the cardinality of the map's current domain (0 for a nil map); card = 0 exactly for
+// the empty domain.
+func (v *fnVC) mapLen(m T, mt *types.Map, snap map[string]T) T {
+	md, _, ks, _ := v.mapMems(mt)
+	fn := "card_" + sanitize(ks)
+	v.P.add(fn, fmt.Sprintf("(declare-fun %[1]s ((Array %[2]s Bool)) Int)\n(assert (forall ((d (Array %[2]s Bool))) (! (>= (%[1]s d) 0) :pattern ((%[1]s d)))))\n(assert (forall ((d (Array %[2]s Bool)) (k %[2]s)) (! (=> (= (%[1]s d) 0) (not (select d k))) :pattern ((%[1]s d) (select d k)))))\n(assert (= (%[1]s ((as const (Array %[2]s Bool)) false)) 0))", fn, ks))
+	var mem T
+	if snap != nil {
+		if x, ok := snap[md]; ok {
+			mem = x
+		} else {
+			mem = v.mem0(md)
+		}
+	} else {
+		mem = v.memOrEntry(md)
+	}
+	return ite(eq(m, "0"), "0", app(fn, sel(mem, m)))
 }
